@@ -43,6 +43,45 @@ def witnesses(ctx):
     finally:
         sb.close()
 
+def failed_apply_stream(ctx, n):
+    """a deploy hit by an I/O error at a random fault point (cfg(agentpack_verif) hook): a manifest the failed command
+    rewrote must not list a file that is not on disk with the recorded bytes (records follow the writes, never
+    precede them), and every file on disk that the failed command wrote is either listed or still covered by the
+    earlier record"""
+    import json, hashlib
+    rng = ctx.rng
+    for i in range(n):
+        sb = Sandbox('c15x'); sb.git_init_project()
+        try:
+            cw = ds.CfgWorld(sb, rng); ds.setup_all_targets(cw, rng); cw.write()
+            sb.cli_json(['deploy', '--apply', '--yes', '--adopt'])
+            for _ in range(rng.randrange(1, 3)):
+                cw.edit_config()
+            if rng.random() < 0.7: cw.add_prompt()
+            cw.write()
+            before = ds.world_tree(sb)
+            k = rng.randrange(1, 60); kind = rng.choice(['EIO', 'EACCES', 'ENOSPC', 'abort'])
+            p = sb.cli(['deploy', '--apply', '--yes', '--adopt', '--json'], extra_env={'AGENTPACK_VERIF_FAULT': '%d:%s' % (k, kind)})
+            after = ds.world_tree(sb)
+            failed = p.returncode != 0
+            ctx.count('failed_apply', key=(kind, failed, k // 10), nontrivial=failed and before != after, tags=['fault:' + kind, 'failed' if failed else 'completed'])
+            if not failed:
+                continue
+            rec = {'stream': 'failed_apply', 'index': i, 'fault': '%d:%s' % (k, kind), 'exit': p.returncode,
+                   'config': {'opts': cw.opts, 'modules': [m['id'] for m in cw.modules if m['enabled']]}}
+            for r in ds.relR(cw.roots(None), sb.root):
+                mp = r['root'] + '/' + ds.mf_name(r['target'])
+                if mp in after and before.get(mp) != after[mp]:
+                    try: ents = json.loads(after[mp])['managed_files']
+                    except Exception: continue
+                    for e in ents:
+                        q = ds.norm_rel(r['root'] + '/' + e['path'])
+                        if q not in after or hashlib.sha256(after[q]).hexdigest() != e['sha256']:
+                            ctx.violation('a manifest rewritten by a deploy that then failed lists %s, which is not on disk with the recorded bytes (the record precedes the write)' % q,
+                                          dict(rec, manifest=mp, entry=e)); break
+        finally:
+            sb.close()
+
 def run(ctx):
     quick = ctx.tier == 'quick'
     ctx.rule = ('ledger_hist: histories over {deploy(config edits incl. option flips that move/switch off roots, --target, --adopt, all entry points), bootstrap --scope user, '
@@ -55,6 +94,7 @@ def run(ctx):
     witnesses(ctx)
     # two targets sharing one root directory (codex project scope + zed in the project root), deploys with and without --target
     ds.run_hist_stream(ctx, 6 if quick else 80, 5, props={'C15'}, weights={'deploy': 1}, stream='shared_root_hist', setup=ds.setup_shared_root)
+    failed_apply_stream(ctx, 24 if quick else 300)
     ds.run_hist_stream(ctx, 5 if quick else 60, 8, props={'C15'}, weights={'deploy': 1}, stream='bootstrap_rollback',
                        plan_script=ds.hist_bootstrap_then_rollback, setup=ds.setup_two_roots)
     # deploys that each touch one root only, then rollbacks: every file rollback (re)writes must be listed, every file it deletes unlisted
